@@ -10,7 +10,7 @@ from __future__ import annotations
 import ast
 
 from ..astutil import ancestors, handler_catches, calls_in, const_value, dotted, enclosing_stmt, kwarg, src, walk_local
-from ..cfg import cfg_of
+from ..cfg import cfg_of, deref_at
 from ..loader import AnalysisError
 from ..terms import contains, show
 from . import shared
@@ -93,6 +93,38 @@ def r3_never_widens(ctx):
             )
 
 
+def _cache_enabled_edges(fn_node, cfg, i):
+    """edge nodes of an if/while on which `self._cache_directory is not None` is known (the test may be negated, kept in
+    a local, or be one conjunct of an `and`)"""
+    def lit(e, depth=0):
+        neg = False
+        while isinstance(e, ast.UnaryOp) and isinstance(e.op, ast.Not):
+            e, neg = e.operand, not neg
+        if isinstance(e, ast.Name) and depth < 3:
+            d = deref_at(fn_node, e)
+            if d is not e:
+                r = lit(d, depth + 1)
+                return None if r is None else (r != neg)
+        if isinstance(e, ast.Compare) and len(e.ops) == 1 and isinstance(e.left, ast.Attribute) and e.left.attr == '_cache_directory' and isinstance(e.comparators[0], ast.Constant) and e.comparators[0].value is None:
+            if isinstance(e.ops[0], (ast.IsNot, ast.NotEq)):
+                return not neg
+            if isinstance(e.ops[0], (ast.Is, ast.Eq)):
+                return neg
+        return None
+
+    t = i.test
+    v = lit(t)
+    if v is not None:
+        return cfg.nodes_of(i, 'true' if v else 'false')
+    if isinstance(t, ast.BoolOp):
+        lits = [lit(x) for x in t.values]
+        if isinstance(t.op, ast.And) and True in lits:
+            return cfg.nodes_of(i, 'true')
+        if isinstance(t.op, ast.Or) and False in lits:
+            return cfg.nodes_of(i, 'false')
+    return []
+
+
 def r4_disabled_untouched(ctx):
     corpus = ctx.corpus
     cls = repo_cls(corpus)
@@ -105,16 +137,13 @@ def r4_disabled_untouched(ctx):
             continue
         ctx.analysed(f)
         cfg = cfg_of(f.node)
-        guards = []
+        g = []
         for i in walk_local(f.node):
-            if isinstance(i, ast.If):
-                t = i.test
-                if isinstance(t, ast.Compare) and len(t.ops) == 1 and isinstance(t.ops[0], ast.IsNot) and isinstance(t.left, ast.Attribute) and t.left.attr == '_cache_directory' and isinstance(t.comparators[0], ast.Constant) and t.comparators[0].value is None:
-                    guards.append(i)
+            if isinstance(i, (ast.If, ast.While)):
+                g += _cache_enabled_edges(f.node, cfg, i)
         for c in calls:
             n += 1
             st = enclosing_stmt(c)
-            g = [x for i in guards for x in cfg.nodes_of(i, 'true')]
             ok = bool(g) and all(cfg.set_dominates(g, x) for x in cfg.nodes_of(st, 'stmt'))
             ctx.check(
                 ok,
